@@ -70,8 +70,10 @@ fn parse_bool(pair: pest::iterators::Pair<'_, gsd_parser::Rule>) -> ParseResult<
     Ok(parse_number::<u32>(pair)? != 0)
 }
 
-fn parse_string_literal(pair: pest::iterators::Pair<'_, gsd_parser::Rule>) -> String {
-    assert!(pair.as_rule() == gsd_parser::Rule::string_literal);
+fn parse_string_literal(pair: pest::iterators::Pair<'_, gsd_parser::Rule>) -> ParseResult<String> {
+    if pair.as_rule() != gsd_parser::Rule::string_literal {
+        return Err(parse_error("expected a string literal", pair.as_span()));
+    }
     // drop the quotation marks
     let mut chars = pair.as_str().chars();
     chars.next();
@@ -79,7 +81,7 @@ fn parse_string_literal(pair: pest::iterators::Pair<'_, gsd_parser::Rule>) -> St
     let s = chars.as_str().to_owned();
 
     // remove long-line markers
-    s.replace("\\\r\n", "").replace("\\\n", "")
+    Ok(s.replace("\\\r\n", "").replace("\\\n", ""))
 }
 
 pub fn parse(
@@ -136,7 +138,7 @@ fn parse_inner(
                     assert!(value_pairs.as_rule() == gsd_parser::Rule::prm_text_value);
                     let mut iter = value_pairs.into_inner();
                     let number = parse_signed_number(iter.next().unwrap())?;
-                    let value = parse_string_literal(iter.next().unwrap());
+                    let value = parse_string_literal(iter.next().unwrap())?;
                     assert!(iter.next().is_none());
                     values.insert(value, number);
                 }
@@ -146,7 +148,7 @@ fn parse_inner(
                 let mut content = statement.into_inner();
                 // TODO: actually u32?
                 let id: u32 = parse_number(content.next().unwrap())?;
-                let name = parse_string_literal(content.next().unwrap());
+                let name = parse_string_literal(content.next().unwrap())?;
 
                 let data_type_pair = content.next().unwrap();
                 assert_eq!(
@@ -248,7 +250,7 @@ fn parse_inner(
                     assert!(value_pairs.as_rule() == gsd_parser::Rule::unit_diag_area_value);
                     let mut iter = value_pairs.into_inner();
                     let number = parse_number(iter.next().unwrap())?;
-                    let value = parse_string_literal(iter.next().unwrap());
+                    let value = parse_string_literal(iter.next().unwrap())?;
                     assert!(iter.next().is_none());
                     values.insert(number, value);
                 }
@@ -260,7 +262,7 @@ fn parse_inner(
             }
             gsd_parser::Rule::module => {
                 let mut content = statement.into_inner();
-                let name = parse_string_literal(content.next().unwrap());
+                let name = parse_string_literal(content.next().unwrap())?;
                 let mut info_text = None;
                 let module_config: Vec<u8> = parse_number_list(content.next().unwrap())?;
                 let mut module_reference = None;
@@ -295,7 +297,7 @@ fn parse_inner(
                                     module_prm_data.data_const.push((offset, values));
                                 }
                                 "info_text" => {
-                                    info_text = Some(parse_string_literal(value_pair));
+                                    info_text = Some(parse_string_literal(value_pair)?);
                                 }
                                 _ => (),
                             }
@@ -320,7 +322,7 @@ fn parse_inner(
                         gsd_parser::Rule::slot => {
                             let mut pairs = rule.into_inner();
                             let number = parse_number(pairs.next().unwrap())?;
-                            let name = parse_string_literal(pairs.next().unwrap());
+                            let name = parse_string_literal(pairs.next().unwrap())?;
 
                             let default_pair = pairs.next().unwrap();
                             let default_span = default_pair.as_span();
@@ -407,14 +409,14 @@ fn parse_inner(
                 let value_pair = pairs.next().unwrap();
                 match key.to_lowercase().as_str() {
                     "gsd_revision" => gsd.gsd_revision = parse_number(value_pair)?,
-                    "vendor_name" => gsd.vendor = parse_string_literal(value_pair),
-                    "model_name" => gsd.model = parse_string_literal(value_pair),
-                    "revision" => gsd.revision = parse_string_literal(value_pair),
+                    "vendor_name" => gsd.vendor = parse_string_literal(value_pair)?,
+                    "model_name" => gsd.model = parse_string_literal(value_pair)?,
+                    "revision" => gsd.revision = parse_string_literal(value_pair)?,
                     "revision_number" => gsd.revision_number = parse_number(value_pair)?,
                     "ident_number" => gsd.ident_number = parse_number(value_pair)?,
                     //
-                    "hardware_release" => gsd.hardware_release = parse_string_literal(value_pair),
-                    "software_release" => gsd.software_release = parse_string_literal(value_pair),
+                    "hardware_release" => gsd.hardware_release = parse_string_literal(value_pair)?,
+                    "software_release" => gsd.software_release = parse_string_literal(value_pair)?,
                     //
                     "fail_safe" => gsd.fail_safe = parse_bool(value_pair)?,
                     //
@@ -485,7 +487,7 @@ fn parse_inner(
                     "maxtsdr_6m" => gsd.max_tsdr.b6000000 = parse_number(value_pair)?,
                     "maxtsdr_12m" => gsd.max_tsdr.b12000000 = parse_number(value_pair)?,
                     "implementation_type" => {
-                        gsd.implementation_type = parse_string_literal(value_pair)
+                        gsd.implementation_type = parse_string_literal(value_pair)?
                     }
                     //
                     "modular_station" => {
@@ -580,22 +582,22 @@ fn parse_inner(
                     }
                     "unit_diag_bit" => {
                         let bit = parse_number(value_pair)?;
-                        let text = parse_string_literal(pairs.next().unwrap());
+                        let text = parse_string_literal(pairs.next().unwrap())?;
                         gsd.unit_diag.bits.entry(bit).or_default().text = text;
                     }
                     "unit_diag_bit_help" => {
                         let bit = parse_number(value_pair)?;
-                        let text = parse_string_literal(pairs.next().unwrap());
+                        let text = parse_string_literal(pairs.next().unwrap())?;
                         gsd.unit_diag.bits.entry(bit).or_default().help = Some(text);
                     }
                     "unit_diag_not_bit" => {
                         let bit = parse_number(value_pair)?;
-                        let text = parse_string_literal(pairs.next().unwrap());
+                        let text = parse_string_literal(pairs.next().unwrap())?;
                         gsd.unit_diag.not_bits.entry(bit).or_default().text = text;
                     }
                     "unit_diag_not_bit_help" => {
                         let bit = parse_number(value_pair)?;
-                        let text = parse_string_literal(pairs.next().unwrap());
+                        let text = parse_string_literal(pairs.next().unwrap())?;
                         gsd.unit_diag.not_bits.entry(bit).or_default().help = Some(text);
                     }
                     _ => (),
